@@ -52,9 +52,32 @@ pub fn gen_case<R: Rng>(rng: &mut R, r: &PortableRegistry) -> Case {
         s.into_iter().collect()
     };
     let unknown = ["krate::Nope", "other::Foo", "krate::a::Missing", "Foo", "krate::m::Foo9", "x::y::z::W"];
+    // near misses of known paths: a proper prefix (a module path, the bare crate name), a known
+    // path continued by one more segment, a known path with its segments in another order, the
+    // last identifier alone - unknown unless they happen to be registry paths themselves
+    let near: Vec<String> = {
+        let mut v: BTreeSet<String> = BTreeSet::new();
+        for k in &known {
+            let segs: Vec<&str> = k.split("::").collect();
+            for n in 1..segs.len() {
+                v.insert(segs[..n].join("::"));
+            }
+            v.insert(format!("{k}::Extra"));
+            v.insert(format!("{k}::{}", segs[segs.len() - 1]));
+            if segs.len() >= 2 {
+                let mut rev = segs.clone();
+                rev.swap(0, segs.len() - 1);
+                v.insert(rev.join("::"));
+                v.insert(segs[1..].join("::"));
+            }
+        }
+        v.into_iter().filter(|p| !known.contains(p)).collect()
+    };
     let pick_path = |rng: &mut R| -> String {
-        if !known.is_empty() && rng.gen_bool(0.55) {
+        if !known.is_empty() && rng.gen_bool(0.5) {
             known.choose(rng).unwrap().clone()
+        } else if !near.is_empty() && rng.gen_bool(0.45) {
+            near.choose(rng).unwrap().clone()
         } else {
             unknown.choose(rng).unwrap().to_string()
         }
